@@ -758,7 +758,7 @@ fn main() {
     let args: Vec<String> = std::env::args().collect();
     let seed: u64 = args.get(1).and_then(|s| s.parse().ok()).unwrap_or(1);
     let outp = args.get(2).cloned().unwrap_or_else(|| "types.rs".into());
-    let count: usize = args.get(3).and_then(|s| s.parse().ok()).unwrap_or(40);
+    let count: usize = args.get(3).and_then(|s| s.parse().ok()).unwrap_or(56);
     let mut sb = [0u8; 32];
     let mut x = seed ^ 0x6465_7365_7272_6776;
     for c in sb.chunks_mut(8) {
